@@ -19,7 +19,7 @@ RULE = (
     "Non-trivial = at least one fault, forged datagram or concurrent neighbour affected the history; distinct = hash of the sequence of (event kind, actor, message class) of the wire history"
 )
 ASSUMPTIONS = ["default TransportTuning (ACK_TIMEOUT 2, MAX_RETRANSMIT 4) for all requests", "forged tokens are only taken from datagrams already seen on the wire"]
-REQUIRED_MONITORS = {"request_outcome": 500, "result_is_first_matching": 300, "unmatched_con_rst": 50, "matched_con_ack": 30, "token_uniqueness": 100, "forged_wrong_source_not_delivered": 50, "failure_explained": 100, "token_boundary_crossed": 20, "retired_token_after_failed_observe_request": 4, "bystander": 12}
+REQUIRED_MONITORS = {"request_outcome": 500, "result_is_first_matching": 300, "unmatched_con_rst": 50, "matched_con_ack": 30, "token_uniqueness": 100, "forged_wrong_source_not_delivered": 50, "failure_explained": 100, "token_boundary_crossed": 20, "retired_token_after_failed_observe_request": 4, "retired_token_after_cancelled_blockwise_request": 4, "bystander": 16}
 
 SERVERS = [("10.0.0.1", 5683), ("10.0.0.1", 5684), ("10.0.0.3", 5683), ("10.0.0.4", 7777)]
 BEHAVIOURS = ["piggy", "piggy", "sep-con", "sep-non", "late", "never", "rst", "icmp"]
@@ -500,6 +500,25 @@ def run_bystander(kind, variant, seed, rep, case):
                     opts = ((6, b"\x05"),) + opts
                     for k, typ in enumerate((rc.CON, rc.NON, rc.CON)):
                         loop.call_later(1.0 + k, lambda k=k, typ=typ: (notif.append(len(net.log)), peer.send(src, rc.Msg(typ, rc.c(2, 5), peer.next_mid(), m.token, ((6, bytes([6 + k])),), b"n%d" % k))))
+            if path == b"big":
+                # a representation of three blocks; the later blocks are acknowledged but never sent.  While the
+                # application waits for them it gives up; afterwards notifications (observe request) resp. the late
+                # block (plain request) arrive on tokens of a request that is over
+                b2 = rc.opt1(m, 23)
+                num = rc.block_value(b2)[0] if b2 is not None else 0
+                obs = rc.opt1(m, 6) is not None
+                if num == 0:
+                    box["t_first"] = m.token
+                    peer.send(src, rc.Msg(rc.ACK if m.type == rc.CON else rc.NON, rc.c(2, 5), m.mid if m.type == rc.CON else peer.next_mid(), m.token, (((6, b"\x01"),) if obs else ()) + ((23, rc.block_bytes(0, True, 2)),), b"a" * 64))
+                    if obs:
+                        for k, typ in enumerate((rc.CON, rc.NON, rc.CON)):
+                            loop.call_later(2.0 + k, lambda k=k, typ=typ: (notif.append(len(net.log)), peer.send(src, rc.Msg(typ, rc.c(2, 5), peer.next_mid(), m.token, ((6, bytes([6 + k])),), b"n%d" % k))))
+                else:
+                    if m.type == rc.CON:
+                        peer.send(src, rc.Msg(rc.ACK, 0, m.mid, b"", (), b""))
+                    for k, typ in enumerate((rc.CON, rc.NON)):
+                        loop.call_later(3.0 + k, lambda k=k, typ=typ: (notif.append(len(net.log)), peer.send(src, rc.Msg(typ, rc.c(2, 5), peer.next_mid(), m.token, ((23, rc.block_bytes(num, True, 2)),), b"n" + b"b" * 63))))
+                return
             d = 0.5 if path == b"late" else 0.0
             loop.call_later(d, peer.send, src, rc.Msg(rc.ACK if m.type == rc.CON else rc.NON, rc.c(2, 5), m.mid if m.type == rc.CON else peer.next_mid(), m.token, opts, b"ok-" + path))
 
@@ -530,6 +549,15 @@ def run_bystander(kind, variant, seed, rep, case):
         if kind == "block1-in-response":
             kw = {"observe": 0} if variant >= 4 else {}
             go("b1", aiocoap.Message(code=[aiocoap.GET, aiocoap.FETCH if variant >= 4 else aiocoap.PUT][variant % 2], uri="coap://10.0.0.1/b1", payload=b"" if variant % 2 == 0 else b"x", **kw), handle_blockwise=True)
+        if kind == "cancel-in-block2":
+            rq = go("big", aiocoap.Message(code=aiocoap.GET, uri="coap://10.0.0.1/big", **({"observe": 0} if variant % 2 == 0 else {})), handle_blockwise=True)
+            if variant % 2 == 0 and variant >= 2:
+                rq.observation.register_errback(lambda e: None)
+            await asyncio.sleep(0.5)
+            box["cancelled_at"] = loop.time()
+            box["cancel_pending"] = not rq.response.done()
+            rq.response.cancel()
+            del rq
         await asyncio.sleep(120.0)
         box.update(net=net, out=dict(out), t0=t0, notif=list(notif))
         await cli.shutdown()
@@ -576,6 +604,24 @@ def run_bystander(kind, variant, seed, rep, case):
                 if not ok:
                     rep.violation("retired-token/response-accepted-after-request-failed/%s" % ("con" if e.msg.type == rc.CON else "non"), "a response on the token of a request that had ended with an error was not rejected (confirmable: Reset; non-confirmable: nothing)", w(event=e.brief(), reactions=[s_.brief() for s_ in reacts]), case)
                     return
+    if kind == "cancel-in-block2":
+        net_ = box["net"]
+        if not box.get("cancel_pending"):
+            rep.inconc("cancel-in-block2: the request was over before the application gave up")
+            return
+        rep.monitor("retired_token_after_cancelled_blockwise_request")
+        seen_late = 0
+        for e in net_.log:
+            if e.kind == "deliver" and e.dst == C_ADDR and e.msg is not None and rc.is_response(e.msg.code) and e.msg.payload[:1] == b"n" and e.t > box["cancelled_at"] + 1e-9:
+                seen_late += 1
+                reacts = [s_ for s_ in net_.log if s_.kind == "send" and getattr(s_, "cause", None) == e.seq]
+                ok = (len(reacts) == 1 and reacts[0].msg is not None and reacts[0].msg.type == rc.RST and reacts[0].msg.mid == e.msg.mid) if e.msg.type == rc.CON else not reacts
+                if not ok:
+                    rep.violation("retired-token/response-accepted-after-request-cancelled/%s/%s" % ("first-token" if e.msg.token == box.get("t_first") else "block-token", "con" if e.msg.type == rc.CON else "non"), "a response on a token of a block-wise request the application had cancelled while later blocks were being fetched was not rejected (confirmable: Reset; non-confirmable: nothing)", w(event=e.brief(), reactions=[s_.brief() for s_ in reacts]), case)
+                    return
+        if not seen_late:
+            rep.inconc("cancel-in-block2: no late response was delivered")
+            return
     if kind == "block1-in-response" and ("b1" not in after or not (after["b1"][1] is None or isinstance(after["b1"][1], error.Error))):
         rep.violation("bystander/block1-in-response/not-a-library-outcome", "a response carrying an unsolicited Block1 option did not lead to the response or a library error", w(), case)
     if res.loop_exceptions:
@@ -598,11 +644,10 @@ def run_shard(shard, rep, only=None):
         run_history(h, shard["seed"] * 65537 + n, rep, case)
         if n < 1 and shard["index"] == 0:
             rep.sample({"class": "history", "history": h})
-    by = [(k, v) for k in ("multicast", "obs-cancelled", "block1-in-response") for v in range(4)] + [("block1-in-response", v) for v in range(4, 8)]
+    by = [(k, v) for k in ("multicast", "obs-cancelled", "block1-in-response") for v in range(4)] + [("block1-in-response", v) for v in range(4, 8)] + [("cancel-in-block2", v) for v in range(4)]
     for j, (kind, variant) in enumerate(by):
-        if j % shard["of"] != shard["index"] % len(by) and shard["of"] >= len(by):
-            if j != shard["index"] % len(by):
-                continue
+        if j % shard["of"] != shard["index"]:
+            continue
         case = ["bystander", j]
         if only is not None and only != case:
             continue
